@@ -21,7 +21,8 @@ EXPLANATION = (
     "Framing: encoder and decoder use the same field size and byte order for both fields, the size bound precedes "
     "every sized read, zero size <-> None body. Failure mapping: only UsageError subclasses are reconstructed. Peers "
     "cannot wedge the server: EOF/reset map to a clean end. Decides these clauses, not behaviour under every "
-    "fragmentation and completion order."
+    "fragmentation and completion order. "
+    'Also: R-C16-7 futures awaited unshielded by their callers are completed only under a cancelled()/done() guard and all pending calls are failed when the receive loop ends; R-C16-8 the blocking reader repeats recv until the requested size is buffered, and no attrs field of the connection/client classes has a shared mutable default; _call_and_capture_failure catches BaseException.'
 )
 ASSUMPTIONS = ["asyncio streams deliver bytes in order; readexactly returns exactly n bytes or raises"]
 
